@@ -56,6 +56,8 @@ def run(ctx, rep, tier):
     rep.rule("SA", "every admitting exit of an admission predicate is dominated by orientation compatibility of that (cell,row)", 7)
     rep.rule("AC", "legalizer commits only candidates the admission predicate accepted; candidate variables assigned together", 2)
     rep.rule("G7", "orientation stores come from the orientation function of the row whose y is stored with them", 4)
+    rep.rule("PP", "the model builders hand the circuit's row polarities over unchanged", 3)
+    rep.rule("R1", "Detailed-step callbacks observe the exported (legalized / current) placement", 2)
     rep.rule("KO", "cells without polarity keep their input orientation", 3)
     rep.rule("R2", "DetailedPlacement::check rejects INVALID", 1)
     check_tables(ctx, rep, spec)
@@ -64,6 +66,9 @@ def run(ctx, rep, tier):
     check_region_choice(ctx, rep)
     check_commits(ctx, rep, "AC")
     check_g7(ctx, rep)
+    from .c02 import check_export_before_callback
+    check_export_before_callback(ctx, rep, "R1", (CQ + "DetailedPlacer",))
+    check_polarity_provenance(ctx, rep)
     check_keep(ctx, rep)
     check_r2(ctx, rep)
 
@@ -676,3 +681,65 @@ def check_r2(ctx, rep):
     else:
         rep.violation("R2", f.decl, f, "check() accepts an INVALID expected orientation",
                       "no throw dominated by cellOrientationInRow(...) == INVALID", key="DetailedPlacement::check|accepts INVALID")
+
+
+def check_polarity_provenance(ctx, rep):
+    """PP. Each fromIspdCircuit builder of Legalizer / DetailedPlacement passes, as the std::vector<CellRowPolarity> argument of the
+    model constructor, the circuit's polarities themselves: the member / accessor, or a local vector every write of which stores a
+    circuit polarity read (cellRowPolarity_[c], cellRowPolarity()[c]). Storing a literal polarity or rewriting elements weakens
+    the constraint the admission predicates later test."""
+    prog = ctx.prog
+    n = 0
+
+    def is_circuit_polarity(c):
+        if c[0] == "field" and str(c[1]).endswith("Circuit::cellRowPolarity_"):
+            return True
+        if c[0] == "call" and str(c[1]).endswith("Circuit::cellRowPolarity"):
+            return True
+        if c[0] == "index":
+            return is_circuit_polarity(c[1])
+        return False
+
+    for f in prog.all_funcs(with_lambdas=False):
+        if f.body is None or f.name != "fromIspdCircuit" or f.cls not in (CQ + "Legalizer", CQ + "DetailedPlacement"):
+            continue
+        ctors = [x for x in walk(f.body) if x.get("kind") in ("CXXConstructExpr", "CXXTemporaryObjectExpr") and
+                 qt(x).replace("const ", "").split("::")[-1] in ("Legalizer", "DetailedPlacement") and len(children(x)) >= 5]
+        for x in ctors:
+            pol = [a for a in children(x) if "CellRowPolarity" in qt(a) and "vector" in qt(a)]
+            if not pol:
+                continue
+            n += 1
+            a = canon(pol[0])
+            what = "%s passes %s as the cells' row polarities" % (f.short, pretty(a)[:50])
+            if is_circuit_polarity(a):
+                rep.holds("PP", x, f, what, "the circuit's own polarities")
+                continue
+            if a[0] != "var":
+                rep.unknown("PP", x, f, what, "neither the circuit's polarities nor a local vector")
+                continue
+            d = f.unit.by_id.get(a[1])
+            init = canon(children(d)[-1]) if d is not None and children(d) else None
+            bad = []
+            if init is not None and not is_circuit_polarity(init) and init[0] not in ("construct", "call", "lit"):
+                bad.append("initialised from %s" % pretty(init)[:40])
+            for y in walk(f.body):
+                k = y.get("kind")
+                if k == "CXXMemberCallExpr" and callee_info(y)["name"] in ("push_back", "emplace_back") and canon(callee_info(y)["obj"])[:2] == a[:2]:
+                    v = canon(callee_info(y)["args"][0])
+                    if not is_circuit_polarity(v):
+                        bad.append("push of %s" % pretty(v)[:40])
+                elif k in ("BinaryOperator", "CXXOperatorCallExpr"):
+                    c = canon(y)
+                    tgt = _store_target(c)
+                    if tgt and tgt[0] == "index" and tgt[1][:2] == a[:2]:
+                        v = c[3] if len(c) > 3 else ("none",)
+                        if not is_circuit_polarity(v):
+                            bad.append("element set to %s" % pretty(v)[:40])
+            if bad:
+                rep.violation("PP", x, f, what, "%s: the polarity the placer enforces is no longer the one the circuit declares" % "; ".join(bad[:3]),
+                              key="%s|polarities rewritten" % f.short)
+            else:
+                rep.holds("PP", x, f, what, "a local copy filled only with the circuit's polarities")
+    if n == 0:
+        rep.unknown("PP", None, None, "model builders", "no fromIspdCircuit builder passing a polarity vector found (shape changed)")
